@@ -552,12 +552,20 @@ class Zeroconf(QuietLogger):
         # Send Goodbye packets https://datatracker.ietf.org/doc/html/rfc6762#section-10.1
         # A registration that finishes probing while the goodbyes are going out
         # is announced, keep going until there is nothing left to withdraw
+        withdrawn: Set[str] = set()
         while True:
             # The goodbyes of services that were unregistered just before, or
             # meanwhile, are still going out, they would be cut short when the
             # instance is marked done
             while self._goodbye_tasks:
                 await asyncio.wait(self._goodbye_tasks)
+            keys = {info.key for info in self.registry.async_get_service_infos()}
+            if keys <= withdrawn:
+                # Nothing, or only what was withdrawn already and has been put
+                # back since: something that keeps updating its service must
+                # not keep the shutdown from ending
+                return
+            withdrawn |= keys
             out = self.generate_unregister_all_services()
             if not out:
                 return
